@@ -165,14 +165,26 @@ CLAIMS["C18"] = dict(
     design_ref="DESIGN.md 5 (C18), B.7", technique=TECH,
     note=TRUST + "; the ghost file system and its library contracts (tier A) stand for the OS: real files, interpreter death "
          "and buffering are exercised only by the bounded part; alter_sequence / Split hoisting is bounded only")
-CLAIMS["C19"] = bounded_claim(
-    "Bounded: the real pipeline ToCSV, MakeFilename, Write, RenderLaTeX, Write, LaTeXToPDF, PDFToPNG (and the group variant) on "
-    "a temp directory with recording stub converters: all histories of 1..2 runs (thorough 1..3) where each run keeps/changes "
-    "data, keeps/changes the template and deletes any subset of {csv, tex, pdf, png}; decision tables of Write.run, "
-    "LaTeXToPDF.run, PDFToPNG.run, MakeFilename (7670 argument/context combinations), group_plots / MapGroup flag "
-    "combination. No proof obligations yet. One genuine defect repaired (fix: 63aa3e2), one recorded as an open known finding "
-    "(Write leaves output.changed unset when it creates a missing file: the repair contradicts an existing test).",
-    "DESIGN.md 5 (C19)")
+CLAIMS["C19"] = dict(
+    category="other",
+    text="Proof part (ghost file system; every clause holds AT THE YIELD of each value, for all flows): Write.run - a value that "
+         "is not selected, or whose data is the path another Write already wrote, passes as the very same object and nothing "
+         "on disk is touched; for a written value the file at the yielded path exists and holds exactly the current data "
+         "(unless existing_unchanged promises existing files are current), no other file is touched, an existing file with "
+         "the same content is not rewritten (unless overwrite), an existing file is never rewritten with existing_unchanged, "
+         "output.changed is True when an existing file was rewritten or overwrite is set and otherwise keeps what came from "
+         "upstream, output.filepath and the yielded path agree and the context object is the value's own; Write._write_data "
+         "replaces exactly that file. The selection predicate (nested is_writable) and _make_filename are assumed here. "
+         "Bounded part (labelled): the real pipeline ToCSV, MakeFilename, Write, RenderLaTeX, Write, LaTeXToPDF, PDFToPNG and "
+         "its group variant on a temp directory with recording stub converters over all histories of 1..2 runs (thorough "
+         "1..3) of keep/change data, keep/change template, delete any subset of {csv, tex, pdf, png}; decision tables of "
+         "Write.run, LaTeXToPDF.run, PDFToPNG.run, MakeFilename, group_plots / MapGroup. One genuine defect repaired (fix: "
+         "63aa3e2), one open known finding (Write leaves output.changed unset when it CREATES a file: the repair contradicts "
+         "an existing test) - the proved `changed` clauses are stated for existing files, so the finding's region is exactly "
+         "the missing-file branch.",
+    design_ref="DESIGN.md 5 (C19), B.7", technique=TECH,
+    note=TRUST + "; the ghost file system stands for the OS (tier A); LaTeXToPDF / PDFToPNG (process pools) and MakeFilename are "
+         "bounded only")
 CLAIMS["C16"] = bounded_claim(
     "Proof obligations (evidence): FillRequest._run_fill_compute (the run method of fill/compute and fill/request elements, "
     "used by FillRequestSeq.run) consumes the flow in consecutive blocks of exactly bufsize values (pulled == blocks x "
